@@ -4,11 +4,12 @@ CONSTANTS
   Size = 2
   KeyLen = 0
   NSet <- MC_NSet
-  MaxBytes = 6
+  MaxBytes = 13
   MaxSize = 3
   RangeCheck = TRUE
   CorruptSizes <- MC_None
+  WithMarshal = FALSE
   CorruptOffsets <- MC_None
 INVARIANTS TypeOK ShapeOK DefinedIffShape NoPanic BufInv SumIsDefinition
-PROPERTIES Refines AbsSumStable AbsResetRestores AbsTransparent
+PROPERTIES Refines AbsSumStable AbsResetRestores
 CHECK_DEADLOCK FALSE
